@@ -835,7 +835,12 @@ def run(ctx):
     impl = {}
     for k, (op, a) in enumerate(cases):
         if op == "w_c19_py":
-            impl[k] = list(gsm_shared.HoppingParams.fn2gsm_time(a[0]))
+            try:
+                impl[k] = list(gsm_shared.HoppingParams.fn2gsm_time(a[0]))
+            except Exception as e:  # noqa
+                impl[k] = [-1, -1, -1]
+                ctx.oracle_fail("the Python toolkit does not derive T1, T2, T3 for frame number %d: fn2gsm_time raises %s (%s)" % (a[0], type(e).__name__, e),
+                                dict(fn=a[0]), key="c19-py-raises", expected=[a[0] // 1326 % 2048, a[0] % 26, a[0] % 51])
         else:
             impl[k] = [int(x) for x in next(c_out).split()]
     idx = list(range(len(cases)))
@@ -881,9 +886,13 @@ def run(ctx):
         ctx.exhaustive = True
     # Python side over the whole hyperframe in thorough
     step = 1 if ctx.tier == "thorough" else 101
-    for fn in range(0, H, step):
-        if gsm_shared.HoppingParams.fn2gsm_time(fn) != (fn // 1326, fn % 26, fn % 51, (fn // 51) % 8):
-            ctx.oracle_fail("fn2gsm_time deviates", dict(fn=fn), key="c19-py")
+    for fn in list(range(0, H, step)) + [H - 1]:
+        try:
+            got = gsm_shared.HoppingParams.fn2gsm_time(fn)
+        except Exception as e:  # noqa
+            got = "%s: %s" % (type(e).__name__, e)
+        if got != (fn // 1326, fn % 26, fn % 51, (fn // 51) % 8):
+            ctx.oracle_fail("fn2gsm_time deviates from the decomposition of the frame number", dict(fn=fn), key="c19-py", expected=[fn // 1326, fn % 26, fn % 51, (fn // 51) % 8], observed=str(got))
             break
     ctx.evaluations += len(range(0, H, step))
     # the firmware's running time and the call sites
